@@ -10,6 +10,7 @@ ap.add_argument("--all-checks", action="store_true")
 ap.add_argument("--dirs", default="seeded,selftest")
 ap.add_argument("--jobs", type=int, default=6)
 ap.add_argument("--only", default=None)
+ap.add_argument("--out", default="seeded/MATRIX.json", help="relative to /verif (refactors: refactors/RESULTS.json, where every check must exit 0)")
 a = ap.parse_args()
 V = "/verif"
 items = []
@@ -55,4 +56,4 @@ for name, prop, out in results:
         matrix[name] = {"property": prop, "caught_by": [], "inconclusive": [], "stale_patch": True, "detail": {}}
         continue
     print(f"{name:42s} {prop}  caught by: {','.join(caught) or '-'}{'   inconclusive: ' + ','.join(incon) if incon else ''}")
-json.dump(matrix, open(os.path.join(V, "seeded", "MATRIX.json"), "w"), indent=1, ensure_ascii=False)
+json.dump(matrix, open(os.path.join(V, a.out), "w"), indent=1, ensure_ascii=False)
